@@ -184,8 +184,123 @@ def refusal_cases() -> list[tuple[str, str]]:
     return out
 
 
+# ---- operation sequences: results must not depend on what was computed before -------------------------
+
+SEQ_OPS = ("magnitude", "unit", "dot", "scale", "project")
+SEQ_SYSTEMS = ("cartesian", "cylindrical", "spherical")
+_SEQ: dict = {}
+
+
+def _seq_setup() -> dict:
+    if _SEQ:
+        return _SEQ
+    from symplyphysics import CoordinateSystem
+    S = CoordinateSystem.System
+    _SEQ["cs"] = {"cartesian": CoordinateSystem(S.CARTESIAN), "cylindrical": CoordinateSystem(
+        S.CYLINDRICAL), "spherical": CoordinateSystem(S.SPHERICAL)}
+    _SEQ["a"] = sp.symbols("a1:4", positive=True)
+    _SEQ["b"] = sp.symbols("b1:4", positive=True)
+    # one generic point; angles inside the domains
+    vals = [sp.Rational(11, 5), sp.pi / 5, sp.Rational(3, 7), sp.Rational(13, 3), sp.pi / 7,
+        sp.Rational(5, 9)]
+    _SEQ["point"] = dict(zip(_SEQ["a"] + _SEQ["b"], vals))
+    return _SEQ
+
+
+def _to_cart(system: str, q: tuple) -> tuple:
+    q1, q2, q3 = q
+    if system == "cartesian":
+        return q
+    if system == "cylindrical":
+        return (q1 * sp.cos(q2), q1 * sp.sin(q2), q3)
+    # library ordering: (r, azimuth, polar)
+    return (q1 * sp.cos(q2) * sp.sin(q3), q1 * sp.sin(q2) * sp.sin(q3), q1 * sp.cos(q3))
+
+
+def seq_event(op: str, system: str) -> str:
+    """run one operation on the shared component tuples in the given system and compare with the
+    Cartesian reference; '' if right"""
+    from symplyphysics import Vector, dot_vectors, vector_magnitude, vector_unit, scale_vector
+    from symplyphysics.core.vectors.arithmetics import project_vector
+    Q = _seq_setup()
+    cs, a, b, pt = Q["cs"][system], Q["a"], Q["b"], Q["point"]
+    A, B = Vector(list(a), cs), Vector(list(b), cs)
+    ca, cb = _to_cart(system, a), _to_cart(system, b)
+    k = sp.Rational(7, 3)
+
+    def num(e: Any) -> Any:
+        return sp.N(sp.sympify(e).subs(pt), 30)
+
+    def close(x: Any, y: Any) -> bool:
+        return abs(num(x) - num(y)) < sp.Float("1e-20")
+
+    if op == "magnitude":
+        return "" if close(vector_magnitude(A), sp.sqrt(R.norm2(ca))) else \
+            f"magnitude in {system} is {num(vector_magnitude(A))}, reference {num(sp.sqrt(R.norm2(ca)))}"
+    if op == "dot":
+        return "" if close(dot_vectors(A, B), R.dot(ca, cb)) else \
+            f"dot product in {system} is {num(dot_vectors(A, B))}, reference {num(R.dot(ca, cb))}"
+    if op == "scale":
+        got = _to_cart(system, tuple(scale_vector(k, A).components))
+        return "" if all(close(x, y) for x, y in zip(got, R.scale(k, ca))) else \
+            f"scaling in {system} gives {[num(x) for x in got]}"
+    if op == "unit":
+        u = vector_unit(A)
+        return "" if close(dot_vectors(u, u), 1) else \
+            f"unit vector in {system} has squared magnitude {num(dot_vectors(u, u))}"
+    if op == "project":
+        if system != "cartesian":
+            # projection is defined through dot and scale: the Cartesian image must be the projection
+            p = project_vector(A, B)
+            got = _to_cart(system, tuple(p.components))
+            want = R.scale(R.dot(ca, cb) / R.norm2(cb), cb)
+            return "" if all(close(x, y) for x, y in zip(got, want)) else \
+                f"projection in {system} gives {[num(x) for x in got]}, reference {[num(x) for x in want]}"
+        p = project_vector(A, B)
+        want = R.scale(R.dot(ca, cb) / R.norm2(cb), cb)
+        return "" if all(close(x, y) for x, y in zip(p.components, want)) else \
+            f"projection gives {[num(x) for x in p.components]}"
+    raise ValueError(op)
+
+
+def sequence_cases(first: tuple, depth: int) -> list[tuple[str, str]]:
+    """all operation sequences of the given depth starting with `first`, each from the initial
+    state of the process (forked child)"""
+    from .c03 import in_child
+    events = [(o, s) for o in SEQ_OPS for s in SEQ_SYSTEMS]
+    out = []
+    for rest in itertools.product(events, repeat=depth - 1):
+        seq = (first, ) + rest
+
+        def run(seq: tuple = seq) -> list:
+            return [seq_event(o, s) for o, s in seq]
+
+        res = in_child(run, timeout=120)
+        tag = "seq:" + ">".join(f"{o}@{s}" for o, s in seq)
+        if isinstance(res, dict) and "error" in res:
+            out.append((tag, f"sequence crashed: {res['error']}"))
+            continue
+        bad = [(i, m) for i, m in enumerate(res) if m]
+        # an event that is wrong even as the first of a sequence is a stateless defect and is
+        # reported once, by the one-event sequence
+        out.append((tag, "" if not bad else f"after {[f'{o}@{s}' for o, s in seq[:bad[0][0]]]}: "
+            f"{bad[0][1]}"))
+    return out
+
+
 def _work(item: tuple) -> dict:
     kind, payload = item
+    if kind == "sequence":
+        cases = sequence_cases(payload[0], payload[1])
+        res0: dict[str, Any] = {"n": len(cases), "keys": [k for k, _ in cases], "outcomes": {},
+            "violations": [], "samples": [cases[len(cases) // 2][0]] if cases else []}
+        for k, v in cases:
+            res0["outcomes"]["holds" if not v else "fails"] = res0["outcomes"].get("holds" if not v
+                else "fails", 0) + 1
+            if v:
+                res0["violations"].append((k, v, {"item": [kind, [list(payload[0]), payload[1]]],
+                    "key": k}))
+        return res0
     if kind == "binary":
         cases = binary_cases(*payload)
     elif kind == "ternary":
@@ -210,6 +325,8 @@ def main(run: Run) -> int:
     items += [("ternary", p) for p in itertools.product(range(4), repeat=3)]
     items += [("quaternary", p) for p in itertools.product(range(4), repeat=4)]
     items.append(("refusal", None))
+    depth = 3 if run.thorough else 2
+    items += [("sequence", ((o, sy), depth)) for o in SEQ_OPS for sy in SEQ_SYSTEMS]
     for r in pmap(_work, rotate(items, run.seed), chunksize=4):
         n = r.pop("n")
         run.evaluations += n
@@ -219,7 +336,9 @@ def main(run: Run) -> int:
         rule="all 16 / 64 / 256 operand length combinations (0..3 each) with distinct generic real "
         "symbols as components; every operation compared with the tuple reference and every "
         "identity of the property evaluated by exact normal form; refusal matrix of 7 binary "
-        "functions x 36 ordered pairs of coordinate-system instances x 3 lengths",
+        "functions x 36 ordered pairs of coordinate-system instances x 3 lengths; all sequences of "
+        "2 (thorough: 3) operations from {magnitude, unit, dot, scale, project} x 3 systems on one "
+        "shared component tuple, each sequence run from the initial state in a forked child",
         exhaustive=True,
         assumptions=["identities are polynomial (rational for projection / unit) in the components, "
             "so agreement for generic symbols is agreement for all values"])
@@ -227,5 +346,8 @@ def main(run: Run) -> int:
 
 def replay(case: dict) -> list[str]:
     kind, payload = case["item"]
+    if kind == "sequence":
+        r = _work((kind, (tuple(payload[0]), payload[1])))
+        return [f"{k}: {w}" for k, w, _ in r["violations"] if k == case["key"]]
     r = _work((kind, tuple(payload) if payload else None))
     return [f"{k}: {w}" for k, w, _ in r["violations"] if k == case["key"]]
